@@ -254,3 +254,53 @@ pub fn run(args: &Args) -> i32 {
         &["interleavings finer than storage-operation granularity are not explored (code between two awaits on the environment runs atomically on the single runtime thread)", "tokio 1.53 current-thread on_thread_park semantics", "blake3 collision resistance"],
     )
 }
+
+/// re-execute one recorded schedule (identity = cfg/case/Npublishers/cache/kind) twice and re-judge it
+pub fn replay(args: &Args, identity: &str, choices: Vec<u32>) -> i32 {
+    let parts: Vec<&str> = identity.split('/').collect();
+    if parts.len() < 5 {
+        eprintln!("unrecognised identity {identity}");
+        return 2;
+    }
+    fn go<TC: ModelCfg>(args: &Args, parts: &[&str], choices: Vec<u32>) -> i32 {
+        let three = parts[2].starts_with('3');
+        let mut all = scenarios::<TC>(false, three);
+        all.extend(scenarios::<TC>(true, three));
+        let Some(case) = all.into_iter().find(|c| c.name == parts[1] && format!("{:?}", c.sc.writer_cache) == parts[3] && c.sc.actors.len() == if three { 3 } else { 2 }) else {
+            eprintln!("scenario {} not found", parts[1]);
+            return 2;
+        };
+        let rep = Report::new("C12", &args.tier, "model_checking");
+        let mut traces = vec![];
+        for _ in 0..2 {
+            let mut ch = Chooser::new(choices.clone(), None);
+            let out = run_scenario::<TC>(&case.sc, &mut ch);
+            if let Some(d) = &ch.diverged {
+                eprintln!("MACHINERY ERROR: replay diverged: {d}");
+                return 2;
+            }
+            traces.push(show_steps(&out));
+            rep.eval(1);
+            rep.states(out.steps.len() as u64, out.steps.len() as u64);
+            rep.traces(1);
+            judge::<TC>(&rep, &case, &out, &ch);
+        }
+        if traces[0] != traces[1] {
+            eprintln!("MACHINERY ERROR: the same schedule produced two different traces");
+            return 2;
+        }
+        println!("replayed schedule ({} steps):\n{}", traces[0].len(), traces[0].join("\n"));
+        let n = rep.violation_count();
+        println!("verdict: {}", if n > 0 { "violation reproduced" } else { "no violation on this tree" });
+        if n > 0 {
+            1
+        } else {
+            0
+        }
+    }
+    if parts[0] == "experimental" {
+        go::<E>(args, &parts, choices)
+    } else {
+        go::<W>(args, &parts, choices)
+    }
+}
